@@ -4,7 +4,7 @@ import random
 import re
 import sys
 
-from vlib import common, gens, streams
+from vlib import values,  common, gens, streams
 
 sys.path.insert(0, "/verif/harness/py")
 import ber  # noqa: E402
@@ -154,6 +154,61 @@ def run(chk, model_ok=True):
             why = c03.check_request(s, rec, {(0, 0)})
             if why:
                 fail(s.line()[:2000], str(rec["result"]), f"{peer.label} {rec['op']}({str(rec['arg'])[:80]}): {why}")
+    # walks: the OID of every follow-up request is the OID the caller is at, i.e. the name of the last row the agent
+    # returned (names that get shorter or longer from row to row, names compressed as RELATIVE-OID elements)
+    from props import c05
+    n_walk = 0
+    for mode, cnt in (("raw", 60 if quick else 3000), ("sync", 40 if quick else 2000), ("async", 10 if quick else 300)):
+        for _ in range(cnt):
+            peer = rng.choice([e2e.Peer("v2c"), e2e.Peer("v1"), e2e.Peer("v3", auth=1, priv=1, auth_kt="localized", priv_kt="localized")])
+            v1 = peer.kind == "v1"
+            # (a third of the walks: a table below the base, read by GetBulk from an agent that compresses names)
+            table = not v1 and rng.random() < 0.45
+            mib, base = c05.gen_mib(rng, table)
+            kind = "next" if v1 else ("bulk" if table else rng.choice(["next", "bulk"]))
+            maxrep, cap = (20, 50) if table else (rng.choice([1, 2, 3, 7, 20]), rng.choice([1, 2, 5, 50]))
+            inner = c05.agent_replies(mib, base, kind, maxrep, cap, v1, False, rng if (table or rng.random() < 0.5) else None)
+            log = []
+
+            def reply_fn(req, inner=inner, log=log):
+                rep = inner(req)
+                rows = rep[1] if isinstance(rep, tuple) else rep
+                log.append((tuple(req["varbinds"][0][0]) if req.get("varbinds") else None, rows))
+                return rep
+            out = c05.run_mode(mode, peer, kind, values.dotted(base), maxrep, reply_fn, env)
+            n_walk += 1
+            # the names the caller is given are the names the agent sent (whatever way it wrote them), in order
+            if out.ending == "stop" and all(isinstance(y, tuple) and len(y) == 2 for y in out.yields):
+                got_names = [o for o, _ in out.yields]
+                want_names = [o for o, _ in c05.subtree(mib, base)]
+                if got_names != want_names:
+                    k = next((i for i, (a, b) in enumerate(zip(got_names, want_names)) if a != b), min(len(got_names), len(want_names)))
+                    fail(f"# walk {mode} {peer.label} {kind} base={values.dotted(base)}", str(got_names[k:k + 2])[:100],
+                         f"{mode}/{peer.label}/{kind} walk of {values.dotted(base)}: row {k} reached the caller as "
+                         f"{got_names[k] if k < len(got_names) else 'nothing (walk ended)'}, the agent sent {want_names[k] if k < len(want_names) else 'nothing more'}")
+                    continue
+            # resolved names of each reply: rows hold arcs (absolute) or raw RELATIVE-OID elements; recompute from the MIB
+            keys = [m[0] for m in mib]
+            for i in range(1, len(log)):
+                asked, prev_rows = log[i][0], log[i - 1][1]
+                if not prev_rows:
+                    continue
+                # the agent walked the MIB from the OID it was asked for: the last row's name is the next MIB key chain
+                cur = log[i - 1][0]
+                last = None
+                import bisect
+                for _row in prev_rows:
+                    j = bisect.bisect_right(keys, tuple(cur))
+                    if j >= len(keys):
+                        break
+                    cur = keys[j]
+                    last = cur
+                if last is not None and asked != tuple(last):
+                    fail(f"# walk {mode} {peer.label} {kind} base={values.dotted(base)}", str(asked)[:100],
+                         f"{mode}/{peer.label}/{kind} walk of {values.dotted(base)}: after the agent returned {values.dotted(last)} as last row, "
+                         f"the next request asks for {values.dotted(asked) if asked else asked}")
+                    break
+    chk.coverage["walk_cursor_walks"] = n_walk
     # the Python clients in front of the socket must hand the text through untouched: what they accept, refuse and
     # send is judged like above (texts that only a lenient integer parser would accept are among the inputs)
     ODD = ["1.3.6.1_0", "1.3. 6", "1.3.6\n", " 1.3.6", "1.3.6 ", "1.3.-0", "1.3.6.-0.1", "1.3.\u0663", "\uff11.\uff13.6", "1.3.0x10", "1.3.1e2",
